@@ -813,6 +813,8 @@ func (s *Server) doModify(cid string, ops []*spb.AFTOperation, resCh chan *spb.M
 					},
 				}},
 			}
+			// The operation has been answered, it must not be answered again below.
+			continue
 		}
 		if _, ok := s.masterRIB.NetworkInstanceRIB(ni); !ok {
 			// this is an unknown network instance, we should not return
